@@ -407,13 +407,42 @@ pub fn spec() -> PropertySpec {
     add!(ULigero, 400, 3200, 4);
     add!(MLigero, 400, 3200, 4);
     add!(Brakedown, 300, 2400, 6);
+    // Combination openings: with honest commitments and the honest open_combinations proof, the relation
+    // check_combinations decides holds exactly when the claimed combination values, coefficients and constants
+    // are the true ones (C06's generator and ground-truth oracle; both directions are asserted).
+    macro_rules! comb {
+        ($s:ty, $q:expr, $t:expr) => {
+            units.push(PropUnit::new(
+                format!("C10:{}:combination-relation", <$s as Scheme>::NAME),
+                $q,
+                $t,
+                4,
+                |_| super::c06::case().prop_filter("a statement component is replaced", |c| c.mode != 5).boxed(),
+                |c: &super::c06::Case, ctx: &mut CaseCtx| {
+                    let mut inner = CaseCtx::new_like(ctx);
+                    let r = super::c06::check_trait::<$s>(c, &mut inner);
+                    ctx.absorb(inner);
+                    match r {
+                        Err(f) => ctx.fail(f.sig.replacen("C06:", "C10:", 1), f.msg),
+                        Ok(()) => Ok(()),
+                    }
+                },
+            ));
+        };
+    }
+    comb!(Marlin, 100, 1000);
+    comb!(Sonic, 100, 1000);
+    comb!(Ipa, 60, 600);
+    comb!(Pst13, 80, 800);
+    comb!(Hyrax, 60, 600);
+    comb!(ULigero, 40, 400);
     units.push(PropUnit::new("C10:kzg10:relation", 400, 3200, 2, |_| kzg_case().boxed(), check_kzg));
     units.push(PropUnit::new("C10:mlpst:relation", 300, 2400, 2, |_| ml_case().boxed(), check_ml));
     units.push(PropUnit::new("C10:skzg:relation", 300, 2400, 2, |_| sk_case().boxed(), check_sk));
     units.push(PropUnit::new("C10:skzg:multi-point-relation", 300, 2400, 2, |_| sk_case().boxed(), check_sk_multi));
     PropertySpec {
         id: "C10",
-        rule: "Accepting single-point transcripts generated as for C01; one verifier-visible component (each commitment part, degree-bound label, value, point or point coordinate, every proof field / first and last elements of proof vectors, every verifier-key element including shift elements - a key element stored plain and prepared is replaced in both forms) is replaced by another valid random element of the same type, chosen by the case. Oracle: library verifier decision (success vs Ok(false)/Err/abort) equals the harness's reference verifier: KZG/Marlin/Sonic/PST13/multilinear-PST pairing equations over challenge-combined commitments and values, the full IPA relation (round challenges from Blake2s over uncompressed encodings, L/R folding, succinct check polynomial by the harness's own product expansion, final key as naive sum over the key), Hyrax equations (13),(14) plus the opening of the evaluation commitment, the Ligero/Brakedown reference verifier (own index derivation, Merkle authentication, column and well-formedness consistency, lengths, <v,a> = value), streaming verify and verify_multi_points (sum_i eta^i C_i against the eta-combination of the interpolants of the claimed evaluations and the vanishing polynomial in G2, for ragged polynomial lengths; commitment, evaluation, point, proof or eta replaced); all with the harness's own sponge replay. The unmodified transcript must satisfy the reference relation and be accepted. batch_check is compared with the conjunction of the reference relation over the point labels on one threaded sponge after replacing a value, point, proof part or key element in one label. Non-trivial: the reference says the relation fails after the replacement.",
+        rule: "Accepting single-point transcripts generated as for C01; one verifier-visible component (each commitment part, degree-bound label, value, point or point coordinate, every proof field / first and last elements of proof vectors, every verifier-key element including shift elements - a key element stored plain and prepared is replaced in both forms) is replaced by another valid random element of the same type, chosen by the case. Oracle: library verifier decision (success vs Ok(false)/Err/abort) equals the harness's reference verifier: KZG/Marlin/Sonic/PST13/multilinear-PST pairing equations over challenge-combined commitments and values, the full IPA relation (round challenges from Blake2s over uncompressed encodings, L/R folding, succinct check polynomial by the harness's own product expansion, final key as naive sum over the key), Hyrax equations (13),(14) plus the opening of the evaluation commitment, the Ligero/Brakedown reference verifier (own index derivation, Merkle authentication, column and well-formedness consistency, lengths, <v,a> = value), streaming verify and verify_multi_points (sum_i eta^i C_i against the eta-combination of the interpolants of the claimed evaluations and the vanishing polynomial in G2, for ragged polynomial lengths; commitment, evaluation, point, proof or eta replaced); all with the harness's own sponge replay. The unmodified transcript must satisfy the reference relation and be accepted. batch_check is compared with the conjunction of the reference relation over the point labels on one threaded sponge after replacing a value, point, proof part or key element in one label. check_combinations (Marlin, Sonic, IPA, PST13, Hyrax, univariate Ligero): with honest commitments and the honest proof the decision must equal the truth of the stated combinations after a claimed value, a verifier-side coefficient, a constant or the transmitted evaluations are replaced (C06's generator and ground-truth oracle under C10's name). Non-trivial: the reference says the relation fails after the replacement.",
         assumptions: vec![
             "the relations implemented by the reference verifiers are the schemes' published ones (module docs and the papers they cite)",
             "commitment replacements inside batches are left to C02 (one commitment per label is shared by all labels)",
